@@ -3,7 +3,7 @@
 cd /verif
 for p in "$@"; do
   python3 harness/seedrun.py $p 2>&1 | grep -v WARN
-  for r in 2 3 4 5 6; do
+  for r in 2 3 4 5 6 7; do
     ls seeded | grep -q "^$p-r${r}m" && python3 harness/seedrun.py $p --round $r 2>&1 | grep -v WARN
   done
 done
